@@ -560,8 +560,14 @@ func (H) Gen(prop string, seed uint64, tier string) *hx.Case {
 		// a side branch that outgrows the active chain but whose j-th block (j>=2) is invalid only in context:
 		// the reorganisation connects j-1 of its blocks, fails, and must end on the most-work valid chain again
 		d := uint32(r.Range(1, 3))
+		if prop == "C07" && r.Chance(0.5) && best.Height >= uint32(cfg.plen())+5 {
+			d = uint32(r.Range(4, 5)) // a long side branch: several of its blocks are stored before it wins
+		}
 		if fork := best.Ancestor(best.Height - d); fork != nil && int(fork.Height) >= cfg.plen() {
 			cur, bad := fork, r.Range(2, int(d)+1)
+			if d >= 4 {
+				bad = r.Range(2, 3) // (fails early: the stored blocks behind it are marked invalid one by one)
+			}
 			second := r.Chance(0.5) // peers send the whole branch a second time later
 			if prop == "C06" && r.Chance(0.5) {
 				// one or two blocks on top of the active chain are known by their headers only (announced, never
